@@ -135,7 +135,8 @@ def render_batch(patterns, idx):
         if i % 3 == 2:
             fb.file_resource(rtype, [p])
         else:
-            fb.message(f"Kind{idx}x{i}", [("name", "string")], resource=(rtype, [p]))
+            # every fourth message resource also declares the wildcard as a LATER pattern: the helpers follow the first
+            fb.message(f"Kind{idx}x{i}", [("name", "string")], resource=(rtype, [p, "*"] if i % 4 == 1 and p != "*" else [p]))
         fields.append((f"r{i}", "string", {"ref": rtype}))
     fb.message("GetRequest", fields)
     fb.message("Reply", [("x", "string")])
